@@ -146,3 +146,24 @@ void h_eof_action(void)
 	free(savedname);
 	CANARY("eof_action");
 }
+
+/* history of three calls (C08 C13 C07): a parse starts, an include succeeds, the parse is aborted inside the included file
+ * (cfg_parse_fp then calls cfg_scan_fp_end() once).  Afterwards nothing of the include may be left: include level, file
+ * handle, pushed source.  Recorded finding: cfg_scan_fp_end() pops one source and knows nothing about the include stack. */
+void h_abort_inside_include(void)
+{
+	int rc; char *outer; static char name0[2] = "n";
+	lex_ctx(LC_TOP); reset_ghost(); lex_scratch(0);
+	cfg_include_stack_ptr = 0; g_buf_depth = 0;
+	outer = malloc(2); __CPROVER_assume(outer != NULL); outer[0] = 'o'; outer[1] = 0; h_cfg.filename = outer;
+	in_has_path = 0; in_resolved = 1; in_fopen_ok = 1; in_is_directory = 0; h_cfg.path = NULL;
+	cfg_scan_fp_begin(&g_file_obj[0]);                 /* cfg_parse_fp: the top-level source */
+	rc = cfg_lexer_include(&h_cfg, name0);             /* include("n") succeeds */
+	__CPROVER_assume(rc == CFG_SUCCESS);
+	cfg_scan_fp_end();                                 /* the parse is rejected inside the included file: cfg_parse_fp cleans up */
+	KFCHECK("C08-abort-inside-include-leaves-entry", "C08,C13,C07", cfg_include_stack_ptr == 0 && !g_file_open[2] && g_buf_depth == 0,
+		"a parse aborted inside an included file gives back the include level, closes the included file and pops both sources");
+	if (h_cfg.filename != outer) free(h_cfg.filename);
+	free(outer);
+	CANARY("abort_inside_include");
+}
